@@ -68,3 +68,76 @@ def wf(eng, d):
 def role_named(d, name_eq):
     """[(guard, role)] for the roles whose name satisfies name_eq(role name) -- names of present roles are distinct"""
     return [(z3.And(r['present'], name_eq(r['name'])), r) for r in d['roles']]
+
+
+# ---------------------------------------------------------------------------
+# checker lemma for typed templates (assume-guarantee, proved in the same run; this is property C14 on the
+# very template the composite harness uses)
+
+PROVED = {}        # (ns, which) -> True once `checker accepts <=> wf` was proved for that template instance
+
+
+def attach(desc, envelope, sig_wf=None, key=None):
+    """mark an envelope {signatures, signed} built from a typed template so that the checker lemma can apply"""
+    desc['signed'].dm_desc = desc
+    desc['lemma_key'] = key
+    desc['sig_wf'] = sig_wf        # z3 Bool: every present value of the template's signature map is a well-formed entry
+    desc['envelope_sigs'] = envelope['signatures']
+
+
+def checker_lemma_factory(build_env, key):
+    """unit proving: checkformat_delegating_metadata(envelope) returns <=> wf(signed) & signature entries well formed;
+    rejections are TypeError / ValueError"""
+    def f(eng):
+        import conda_content_trust.common as c
+        from harness import lemmas
+        from pysym.interp import Interp
+        from pysym.hutil import run_call, is_ret, exc_in, oblige, path_model, record
+        ovr = lemmas.overrides(eng)
+
+        def harness(eng):
+            desc, envelope = build_env(eng)
+            it = Interp(eng, ovr)
+            out = run_call(it, c.checkformat_delegating_metadata, [envelope])
+            good = z3.And(wf(eng, desc), zb(desc['sig_wf']) if desc.get('sig_wf') is not None else z3.BoolVal(True))
+            m = path_model(eng)
+            if m is None:
+                return None
+            mk = lambda mm: dict(scenario='lemma')
+            if is_ret(out):
+                obs = [oblige(eng, 'checker accepts => well formed', z3.Not(good), mk)]
+            elif exc_in(out, ('TypeError', 'ValueError')):
+                obs = [oblige(eng, 'checker rejects => not well formed', good, mk)]
+            else:
+                obs = [dict(name='checker rejects with TypeError/ValueError', status='sat', cex=dict(scenario='lemma'))]
+            return record(eng, out, obs, None, ['accepts'] if is_ret(out) else ['rejects'])
+        return harness
+    return f
+
+
+def checker_override():
+    """interpreter override: on an envelope built from a template whose lemma is proved, the checker is one fork"""
+    import conda_content_trust.common as c
+    from pysym.interp import PyExc
+    real = c.checkformat_delegating_metadata
+
+    def ov(it, fr, md):
+        md = fr.split(md)
+        if isinstance(md, dict) and set(md.keys()) == {'signatures', 'signed'}:
+            signed = md['signed']
+            desc = getattr(signed, 'dm_desc', None)
+            if desc is not None and PROVED.get(desc.get('lemma_key')) and getattr(signed, 'canon_stamp', None) == stubs.struct_stamp(signed):
+                sigs = md['signatures']
+                if isinstance(sigs, dict) and not sigs:
+                    sig_ok = z3.BoolVal(True)
+                elif sigs is desc.get('envelope_sigs') and desc.get('sig_wf') is not None:
+                    sig_ok = zb(desc['sig_wf'])
+                else:
+                    return it.call_interp(real, [md], {})
+                if it.eng.fork(z3.And(wf(it.eng, desc), sig_ok)):
+                    return None
+                e = ValueError('(lemma) not well-formed delegating metadata')
+                e.abstract_class = ('TypeError', 'ValueError')
+                raise PyExc(e, None, real.__qualname__)
+        return it.call_interp(real, [md], {})
+    return {real: ov}
